@@ -184,13 +184,13 @@ def STree.sameD : List Key → List STree → List Key → List STree → Bool
 end
 
 mutual
-/-- `compose` at tree level: every leaf replaced by `inner` -/
-def STree.subst (inner : STree) : STree → STree
-  | .leaf => inner
-  | .node i cs => .node i (STree.substL inner cs)
-def STree.substL (inner : STree) : List STree → List STree
-  | [] => []
-  | c :: cs => STree.subst inner c :: STree.substL inner cs
+/-- `compose` at tree level: every leaf of the outer shape replaced by `inner` -/
+def STree.subst : STree → STree → STree
+  | .leaf, inner => inner
+  | .node i cs, inner => .node i (STree.substL cs inner)
+def STree.substL : List STree → STree → List STree
+  | [], _ => []
+  | c :: cs, inner => STree.subst c inner :: STree.substL cs inner
 end
 
 /-- entries of the children of a node, as the walkers use them -/
